@@ -75,6 +75,23 @@ def programs(tier, seed):
     pw = make('twide', 'long', 'a', '<', 'L', 'N', 'i++', '2', 'oi', True, tier)
     pw.reconfirms = ('wide-iterator-negative',)
     progs.append(pw)
+    # several @tile loops in one source (attribute state must not leak from one loop to the next)
+    multi = [
+        ('tpair1', ['for (int i = 0; i < 2 * c2; ++i; @tile(2, @outer, @inner, check=false)) {\n    rec(out, i, 1);\n  }',
+                    'for (int j = a; j < N; ++j; @tile(4, @outer, @inner)) {\n    rec(out, j, 2);\n  }']),
+        ('tpair2', ['for (int j = a; j < N; j += 2; @tile(2, @outer, @inner)) {\n    rec(out, j, 2);\n  }',
+                    'for (int i = 4 * c2; i > 0; --i; @tile(4, @outer, @inner, check=false)) {\n    rec(out, i, 1);\n  }',
+                    'for (int k = N; k > a; --k; @tile(3, @outer, @inner, check=true)) {\n    rec(out, k, 3);\n  }']),
+        ('tpair3', ['for (int i = 0; i < 3 * c2; ++i; @tile(3, @outer, check=false)) {\n    for (int q = 0; q < 1; ++q; @inner) {\n      rec(out, i, 1);\n    }\n  }',
+                    'for (int j = a; j <= N; ++j; @tile(2, @outer)) {\n    for (int q = 0; q < 1; ++q; @inner) {\n      rec(out, j, 2);\n    }\n  }']),
+    ]
+    for nm, loops in multi:
+        okl = '@kernel void %s(%s) {\n  %s\n}\n' % (nm, SIG, '\n  '.join(loops).replace('c2', '(b & 1)'))
+        pm = O.Prog(nm, okl, nm, args(tier), refcap=12, cap=6, unwind=8, desc='several @tile loops in one kernel, check=false next to default/check=true: ' + ' | '.join(l.split('{')[0].strip() for l in loops),
+                    assumes=['N - a <= 5 && N - a >= -2'])
+        pm.excl_post = {'negative-trip-count': 'launch_negative'}
+        pm.form = 'oi'
+        progs.append(pm)
     # two-dimensional tiling (nested @tile(@outer,@inner): the @outer loop floats up)
     okl = ('@kernel void t2d(%s) {\n  for (int j = 0; j < N; ++j; @tile(2, @outer, @inner)) {\n    for (int i = a; i < b; i += 2; @tile(t, @outer, @inner)) {\n      rec(out, i, j);\n    }\n  }\n}\n' % SIG)
     p = O.Prog('t2d', okl, 't2d', args(tier), refcap=9, cap=4, unwind=6, desc='nested @tile(2,@outer,@inner) x @tile(t,@outer,@inner); 0<=N<=3, 0<=b-a<=6, 1<=t<=3',
